@@ -645,7 +645,14 @@ func (s *Server) read(ch receiver) {
 			rpcRequestsCount.Add(int64(len(in)))
 		}
 		s.mu.Lock()
-		if err != nil { // receive failure; shut down
+		if s.ch == nil {
+			// The server was stopped while we were waiting for input (the
+			// channel's Recv is not required to be unblocked by Close).  The
+			// work signal is closed and there is no channel to reply on, so
+			// whatever arrived must be discarded, and the reader is done.
+			s.mu.Unlock()
+			return
+		} else if err != nil { // receive failure; shut down
 			s.stopLocked(err)
 			s.mu.Unlock()
 			return
